@@ -1,0 +1,239 @@
+//go:build verif
+
+package proto
+
+// Contracts for the verification machinery in /verif (build tag "verif").
+//
+// Ghost model of the byte stream behind Writer.writer (ONE bufio.Writer per proto.Writer, assumed):
+//   SpecOut(i)  the i-th byte ever handed to the writer (abstract, uninterpreted: the stream is
+//               append-only, every position is written once, so each write reveals a part of it)
+//   wpos        number of bytes handed to the writer so far (ghost variable)
+// Decimal rendering (strconv.AppendUint / AppendInt) is abstract: SpecUDecLen(n) digits
+// SpecUDecByte(n, k); that it is the decimal text of n is assumed, not proved.
+
+func SpecOut(i int) byte { panic("abstract spec function") }
+
+func SpecUDecLen(n uint64) int { panic("abstract spec function") }
+
+func SpecUDecByte(n uint64, k int) byte { panic("abstract spec function") }
+
+//@ spec SpecOut abstract
+//@ spec SpecUDecLen abstract
+//@ spec SpecUDecByte abstract
+
+//@ axiom udec_len: forall n uint64 :: 1 <= SpecUDecLen(n) && SpecUDecLen(n) <= 20
+
+//@ func bufio.Writer.WriteByte(self, c) (err)
+//@   trusted library contract over the ghost output stream
+//@   modifies wpos
+//@   ensures ok: err == nil ==> wpos == old(wpos) + 1 && SpecOut(old(wpos)) == c
+//@   ensures fail: err != nil ==> wpos >= old(wpos)
+
+//@ func bufio.Writer.Write(self, p) (nn, err)
+//@   trusted library contract over the ghost output stream
+//@   modifies wpos
+//@   ensures ok: err == nil ==> nn == len(p) && wpos == old(wpos) + len(p)
+//@   ensures bytes: err == nil ==> (forall i int :: old(wpos) <= i && i < old(wpos) + len(p) ==> SpecOut(i) == p[i - old(wpos)])
+//@   ensures fail: err != nil ==> wpos >= old(wpos)
+
+//@ func strconv.AppendUint(dst, i, base) (r)
+//@   trusted library contract: decimal rendering is abstract (SpecUDecLen digits SpecUDecByte)
+//@   modifies elems(dst)
+//@   ensures same_or_fresh: samearray(r, dst) || fresh(r)
+//@   ensures len: base == 10 ==> len(r) == len(dst) + SpecUDecLen(i)
+//@   ensures digits: base == 10 ==> (forall j int :: len(dst) <= j && j < len(r) ==> r[j] == SpecUDecByte(i, j - len(dst)))
+
+// assigned once by the package initialiser ([]byte("\r\n")), never written afterwards (read, not proved)
+//@ axiom crlf_bytes: len(crlfBytes) == 2 && crlfBytes[0] == '\r' && crlfBytes[1] == '\n'
+
+//@ func Writer.crlf
+//@   arith int
+//@   properties C12
+//@   ghost var wpos mathint
+//@   requires nonnil: w != nil && w.writer != nil
+//@   modifies wpos
+//@   ensures crlf: result == nil ==> wpos == old(wpos) + 2 && SpecOut(old(wpos)) == '\r' && SpecOut(old(wpos) + 1) == '\n'
+//@   ensures fail: result != nil ==> wpos >= old(wpos)
+
+//@ func Writer.writeLen
+//@   arith int
+//@   properties C12
+//@   ghost var wpos mathint
+//@   requires nonnil: w != nil && w.writer != nil
+//@   requires nonneg: n >= 0
+//@   modifies wpos, w.lenBuf, elems(w.lenBuf)
+//@   ensures advanced: result == nil ==> wpos == old(wpos) + SpecUDecLen(uint64(n)) + 2
+//@   ensures digits: result == nil ==> (forall i int :: old(wpos) <= i && i < old(wpos) + SpecUDecLen(uint64(n)) ==> SpecOut(i) == SpecUDecByte(uint64(n), i - old(wpos)))
+//@   ensures crlf: result == nil ==> SpecOut(wpos - 2) == '\r' && SpecOut(wpos - 1) == '\n'
+//@   ensures fail: result != nil ==> wpos >= old(wpos)
+//@   ensures scratch: samearray(w.lenBuf, old(w.lenBuf)) || fresh(w.lenBuf)
+
+// ---- one bulk string: '$' <decimal length> CRLF <exactly the bytes of b> CRLF ----
+
+//   nbulk  number of complete bulk strings handed to the writer (ghost; counted where the closing CRLF is written)
+//@ func Writer.bytes
+//@   arith int
+//@   properties C12
+//@   ghost var wpos mathint
+//@   ghost var nbulk mathint
+//@   set nbulk = nbulk + 1 after call crlf
+//@   requires nonnil: w != nil && w.writer != nil
+//@   requires the_argument_is_not_the_writers_own_length_buffer: !samearray(b, w.lenBuf)
+//@   modifies wpos, nbulk, w.lenBuf, elems(w.lenBuf)
+//@   ensures type_byte: result == nil ==> SpecOut(old(wpos)) == '$'
+//@   ensures total: result == nil ==> wpos == old(wpos) + 1 + SpecUDecLen(uint64(len(b))) + 2 + len(b) + 2
+//@   ensures announced_length_is_the_payload_length: result == nil ==> (forall i int :: old(wpos) + 1 <= i && i < old(wpos) + 1 + SpecUDecLen(uint64(len(b))) ==> SpecOut(i) == SpecUDecByte(uint64(len(b)), i - old(wpos) - 1))
+//@   ensures header_end: result == nil ==> SpecOut(old(wpos) + 1 + SpecUDecLen(uint64(len(b)))) == '\r' && SpecOut(old(wpos) + 2 + SpecUDecLen(uint64(len(b)))) == '\n'
+//@   ensures payload_is_the_argument_bytes: result == nil ==> (forall i int :: wpos - 2 - len(b) <= i && i < wpos - 2 ==> SpecOut(i) == old(b[i - (wpos + 3 + SpecUDecLen(uint64(len(b))))]))
+//@   ensures payload_end: result == nil ==> SpecOut(wpos - 2) == '\r' && SpecOut(wpos - 1) == '\n'
+//@   ensures fail: result != nil ==> wpos >= old(wpos)
+//@   ensures scratch: samearray(w.lenBuf, old(w.lenBuf)) || fresh(w.lenBuf)
+//@   ensures number_buffer_kept: w.numBuf == old(w.numBuf)
+//@   ensures one_bulk_string: (result == nil ==> nbulk == old(nbulk) + 1) && nbulk >= old(nbulk)
+//@   ensures stream_only_grows: wpos >= old(wpos)
+
+//@ func util.StringToBytes(s) (b)
+//@   trusted contract of the unsafe conversion: same bytes; a string's memory is immutable and is none of the writer's scratch buffers (modelled as a fresh array)
+//@   ensures same_bytes: len(b) == len(s) && (forall j int :: 0 <= j && j < len(b) ==> b[j] == s[j])
+//@   ensures apart: fresh(b)
+
+//@ func Writer.string
+//@   arith int
+//@   properties C12
+//@   ghost var wpos mathint
+//@   ghost var nbulk mathint
+//@   requires nonnil: w != nil && w.writer != nil
+//@   modifies wpos, nbulk, w.lenBuf, elems(w.lenBuf)
+//@   ensures type_byte: result == nil ==> SpecOut(old(wpos)) == '$'
+//@   ensures total: result == nil ==> wpos == old(wpos) + 1 + SpecUDecLen(uint64(len(s))) + 2 + len(s) + 2
+//@   ensures announced_length_is_the_payload_length: result == nil ==> (forall i int :: old(wpos) + 1 <= i && i < old(wpos) + 1 + SpecUDecLen(uint64(len(s))) ==> SpecOut(i) == SpecUDecByte(uint64(len(s)), i - old(wpos) - 1))
+//@   ensures header_end: result == nil ==> SpecOut(old(wpos) + 1 + SpecUDecLen(uint64(len(s)))) == '\r' && SpecOut(old(wpos) + 2 + SpecUDecLen(uint64(len(s)))) == '\n'
+//@   ensures payload_is_the_argument_bytes: result == nil ==> (forall i int :: wpos - 2 - len(s) <= i && i < wpos - 2 ==> SpecOut(i) == s[i - (wpos - 2 - len(s))])
+//@   ensures payload_end: result == nil ==> SpecOut(wpos - 2) == '\r' && SpecOut(wpos - 1) == '\n'
+//@   ensures fail: result != nil ==> wpos >= old(wpos)
+//@   ensures scratch: samearray(w.lenBuf, old(w.lenBuf)) || fresh(w.lenBuf)
+//@   ensures number_buffer_kept: w.numBuf == old(w.numBuf)
+//@   ensures one_bulk_string: (result == nil ==> nbulk == old(nbulk) + 1) && nbulk >= old(nbulk)
+//@   ensures stream_only_grows: wpos >= old(wpos)
+
+// ---- numbers travel as the bulk string of their decimal text ----
+
+//@ func Writer.uint
+//@   arith int
+//@   properties C12
+//@   ghost var wpos mathint
+//@   ghost var nbulk mathint
+//@   requires nonnil: w != nil && w.writer != nil
+//@   requires two_scratch_buffers: !samearray(w.lenBuf, w.numBuf)
+//@   modifies wpos, nbulk, w.lenBuf, elems(w.lenBuf), w.numBuf, elems(w.numBuf)
+//@   ensures type_byte: result == nil ==> SpecOut(old(wpos)) == '$'
+//@   ensures total: result == nil ==> wpos == old(wpos) + 1 + SpecUDecLen(uint64(SpecUDecLen(n))) + 2 + SpecUDecLen(n) + 2
+//@   ensures payload_is_the_decimal_text: result == nil ==> (forall i int :: wpos - 2 - SpecUDecLen(n) <= i && i < wpos - 2 ==> SpecOut(i) == SpecUDecByte(n, i - (wpos - 2 - SpecUDecLen(n))))
+//@   ensures payload_end: result == nil ==> SpecOut(wpos - 2) == '\r' && SpecOut(wpos - 1) == '\n'
+//@   ensures fail: result != nil ==> wpos >= old(wpos)
+//@   ensures scratch: (samearray(w.lenBuf, old(w.lenBuf)) || fresh(w.lenBuf)) && (samearray(w.numBuf, old(w.numBuf)) || fresh(w.numBuf)) && !samearray(w.lenBuf, w.numBuf)
+//@   ensures one_bulk_string: (result == nil ==> nbulk == old(nbulk) + 1) && nbulk >= old(nbulk)
+//@   ensures stream_only_grows: wpos >= old(wpos)
+
+func SpecIDecLen(n int64) int { panic("abstract spec function") }
+
+func SpecIDecByte(n int64, k int) byte { panic("abstract spec function") }
+
+//@ spec SpecIDecLen abstract
+//@ spec SpecIDecByte abstract
+//@ axiom idec_len: forall n int64 :: 1 <= SpecIDecLen(n) && SpecIDecLen(n) <= 20
+
+//@ func strconv.AppendInt(dst, i, base) (r)
+//@   trusted library contract: decimal rendering is abstract (SpecIDecLen digits SpecIDecByte)
+//@   modifies elems(dst)
+//@   ensures same_or_fresh: samearray(r, dst) || fresh(r)
+//@   ensures len: base == 10 ==> len(r) == len(dst) + SpecIDecLen(i)
+//@   ensures digits: base == 10 ==> (forall j int :: len(dst) <= j && j < len(r) ==> r[j] == SpecIDecByte(i, j - len(dst)))
+
+//@ func Writer.int
+//@   arith int
+//@   properties C12
+//@   ghost var wpos mathint
+//@   ghost var nbulk mathint
+//@   requires nonnil: w != nil && w.writer != nil
+//@   requires two_scratch_buffers: !samearray(w.lenBuf, w.numBuf)
+//@   modifies wpos, nbulk, w.lenBuf, elems(w.lenBuf), w.numBuf, elems(w.numBuf)
+//@   ensures type_byte: result == nil ==> SpecOut(old(wpos)) == '$'
+//@   ensures total: result == nil ==> wpos == old(wpos) + 1 + SpecUDecLen(uint64(SpecIDecLen(n))) + 2 + SpecIDecLen(n) + 2
+//@   ensures payload_is_the_decimal_text: result == nil ==> (forall i int :: wpos - 2 - SpecIDecLen(n) <= i && i < wpos - 2 ==> SpecOut(i) == SpecIDecByte(n, i - (wpos - 2 - SpecIDecLen(n))))
+//@   ensures payload_end: result == nil ==> SpecOut(wpos - 2) == '\r' && SpecOut(wpos - 1) == '\n'
+//@   ensures fail: result != nil ==> wpos >= old(wpos)
+//@   ensures scratch: (samearray(w.lenBuf, old(w.lenBuf)) || fresh(w.lenBuf)) && (samearray(w.numBuf, old(w.numBuf)) || fresh(w.numBuf)) && !samearray(w.lenBuf, w.numBuf)
+//@   ensures one_bulk_string: (result == nil ==> nbulk == old(nbulk) + 1) && nbulk >= old(nbulk)
+//@   ensures stream_only_grows: wpos >= old(wpos)
+
+// ---- one argument of a command: a string or a byte slice travels as exactly its bytes ----
+
+//@ func time.Time.AppendFormat(self, b, layout) (r)
+//@   trusted library contract
+//@   modifies elems(b)
+//@   ensures same_or_fresh: samearray(r, b) || fresh(r)
+
+//@ func encoding.BinaryMarshaler.MarshalBinary(self) (data, err)
+//@   trusted contract of foreign code: an argument's own marshaller does not touch the writer and returns bytes of its own (assumed)
+//@   ensures own: fresh(data)
+
+//@ func Writer.WriteArg
+//@   arith int
+//@   properties C12
+//@   ghost var wpos mathint
+//@   ghost var nbulk mathint
+//@   requires nonnil: w != nil && w.writer != nil
+//@   requires two_scratch_buffers: !samearray(w.lenBuf, w.numBuf)
+//@   requires the_argument_is_not_a_scratch_buffer: hastype(v, "[]byte") ==> !samearray(asbytes(v), w.lenBuf) && !samearray(asbytes(v), w.numBuf)
+//@   requires nor_is_an_address: hastype(v, "net.IP") ==> !samearray(astype(v, "net.IP"), w.lenBuf) && !samearray(astype(v, "net.IP"), w.numBuf)
+//@   modifies wpos, nbulk, w.lenBuf, elems(w.lenBuf), w.numBuf, elems(w.numBuf)
+//@   ensures a_string_travels_as_its_bytes: result == nil && hastype(v, "string") ==> SpecOut(old(wpos)) == '$' && wpos == old(wpos) + 1 + SpecUDecLen(uint64(len(asstring(v)))) + 2 + len(asstring(v)) + 2 && (forall i int :: wpos - 2 - len(asstring(v)) <= i && i < wpos - 2 ==> SpecOut(i) == asstring(v)[i - (wpos - 2 - len(asstring(v)))])
+//@   ensures a_string_announces_its_length: result == nil && hastype(v, "string") ==> (forall i int :: old(wpos) + 1 <= i && i < old(wpos) + 1 + SpecUDecLen(uint64(len(asstring(v)))) ==> SpecOut(i) == SpecUDecByte(uint64(len(asstring(v))), i - old(wpos) - 1))
+//@   ensures bytes_travel_unchanged: result == nil && hastype(v, "[]byte") ==> SpecOut(old(wpos)) == '$' && wpos == old(wpos) + 1 + SpecUDecLen(uint64(len(asbytes(v)))) + 2 + len(asbytes(v)) + 2 && (forall i int :: wpos - 2 - len(asbytes(v)) <= i && i < wpos - 2 ==> SpecOut(i) == old(asbytes(v)[i - (wpos + 3 + SpecUDecLen(uint64(len(asbytes(v)))))]))
+//@   ensures bytes_announce_their_length: result == nil && hastype(v, "[]byte") ==> (forall i int :: old(wpos) + 1 <= i && i < old(wpos) + 1 + SpecUDecLen(uint64(len(asbytes(v)))) ==> SpecOut(i) == SpecUDecByte(uint64(len(asbytes(v))), i - old(wpos) - 1))
+//@   ensures an_int64_travels_as_its_decimal_text: result == nil && hastype(v, "int64") ==> (forall i int :: wpos - 2 - SpecIDecLen(asint64(v)) <= i && i < wpos - 2 ==> SpecOut(i) == SpecIDecByte(asint64(v), i - (wpos - 2 - SpecIDecLen(asint64(v)))))
+//@   ensures one_bulk_string_per_argument: (result == nil ==> nbulk == old(nbulk) + 1) && nbulk >= old(nbulk)
+//@   ensures stream_only_grows: wpos >= old(wpos)
+//@   ensures scratch: !samearray(w.lenBuf, w.numBuf) && (samearray(w.lenBuf, old(w.lenBuf)) || fresh(w.lenBuf)) && (samearray(w.numBuf, old(w.numBuf)) || fresh(w.numBuf))
+
+//@ func strconv.AppendFloat(dst, f, fmt, prec, bitSize) (r)
+//@   trusted library contract (the text of a float is not specified)
+//@   modifies elems(dst)
+//@   ensures same_or_fresh: samearray(r, dst) || fresh(r)
+//@   ensures grows: len(r) >= len(dst)
+
+//@ func Writer.float
+//@   arith int
+//@   properties C12
+//@   ghost var wpos mathint
+//@   ghost var nbulk mathint
+//@   requires nonnil: w != nil && w.writer != nil
+//@   requires two_scratch_buffers: !samearray(w.lenBuf, w.numBuf)
+//@   modifies wpos, nbulk, w.lenBuf, elems(w.lenBuf), w.numBuf, elems(w.numBuf)
+//@   ensures fail: wpos >= old(wpos)
+//@   ensures scratch: (samearray(w.lenBuf, old(w.lenBuf)) || fresh(w.lenBuf)) && (samearray(w.numBuf, old(w.numBuf)) || fresh(w.numBuf)) && !samearray(w.lenBuf, w.numBuf)
+//@   ensures one_bulk_string: (result == nil ==> nbulk == old(nbulk) + 1) && nbulk >= old(nbulk)
+//@   ensures stream_only_grows: wpos >= old(wpos)
+
+// ---- one command: '*' <decimal argument count> CRLF, then one bulk string per argument, in order ----
+
+//@ func Writer.WriteArgs
+//@   arith int
+//@   properties C12
+//@   ghost var wpos mathint
+//@   ghost var nbulk mathint
+//@   requires nonnil: w != nil && w.writer != nil
+//@   requires two_scratch_buffers: !samearray(w.lenBuf, w.numBuf)
+//@   requires no_argument_is_a_scratch_buffer: forall k int :: 0 <= k && k < len(args) ==> (hastype(args[k], "[]byte") ==> allocated(asbytes(args[k])) && !samearray(asbytes(args[k]), w.lenBuf) && !samearray(asbytes(args[k]), w.numBuf)) && (hastype(args[k], "net.IP") ==> allocated(astype(args[k], "net.IP")) && !samearray(astype(args[k], "net.IP"), w.lenBuf) && !samearray(astype(args[k], "net.IP"), w.numBuf))
+//@   modifies wpos, nbulk, w.lenBuf, elems(w.lenBuf), w.numBuf, elems(w.numBuf)
+//@   ensures array_type_byte: result == nil ==> SpecOut(old(wpos)) == '*'
+//@   ensures announced_count_is_the_argument_count: result == nil ==> (forall i int :: old(wpos) + 1 <= i && i < old(wpos) + 1 + SpecUDecLen(uint64(len(args))) ==> SpecOut(i) == SpecUDecByte(uint64(len(args)), i - old(wpos) - 1))
+//@   ensures header_end: result == nil ==> SpecOut(old(wpos) + 1 + SpecUDecLen(uint64(len(args)))) == '\r' && SpecOut(old(wpos) + 2 + SpecUDecLen(uint64(len(args)))) == '\n'
+//@   ensures as_many_bulk_strings_as_announced: result == nil ==> nbulk == old(nbulk) + len(args)
+//@   ensures stream_only_grows: wpos >= old(wpos)
+//@   loop 1:
+//@     invariant one_bulk_string_per_argument_so_far: 0 - 1 <= rangeindex && rangeindex < len(args) && nbulk == old(nbulk) + rangeindex + 1
+//@     invariant writer_kept: !samearray(w.lenBuf, w.numBuf) && (samearray(w.lenBuf, old(w.lenBuf)) || fresh(w.lenBuf)) && (samearray(w.numBuf, old(w.numBuf)) || fresh(w.numBuf))
+//@     invariant no_argument_is_a_scratch_buffer: forall k int :: 0 <= k && k < len(args) ==> (hastype(args[k], "[]byte") ==> allocated(asbytes(args[k])) && !samearray(asbytes(args[k]), w.lenBuf) && !samearray(asbytes(args[k]), w.numBuf)) && (hastype(args[k], "net.IP") ==> allocated(astype(args[k], "net.IP")) && !samearray(astype(args[k], "net.IP"), w.lenBuf) && !samearray(astype(args[k], "net.IP"), w.numBuf))
+//@     invariant header_stays: wpos >= old(wpos) + 3 + SpecUDecLen(uint64(len(args)))
